@@ -178,16 +178,16 @@ theorem absolute_unit_ignores_path (root h h' : Node) (input i1 i2 i3 : Bytes) (
     parse root h input = parse root h' input :=
   parse_absolute root h h' input i1 i2 i3 v t u e1 e2 hs
 
-/-- **Without a colon the walk starts at the current path**; in both cases the header
-is a walk down the tree: the node selected is reached from the start node (root if
+/-- **Without a colon the walkKeys starts at the current path**; in both cases the header
+is a walkKeys down the tree: the node selected is reached from the start node (root if
 there was a colon, else `h`) by the mnemonics `names`, and the path reported is the
 node reached by all of them BUT THE LAST. -/
 theorem relative_starts_at_path (root h : Node) (i rest : Bytes) (node : Node) (hdr : Option Node)
     (hc : compoundHeader root h i = .ok rest (node, hdr)) :
     ∃ (i1 : Bytes) (colon : Option Unit) (names : List Bytes),
       optP headerSeparator i = .ok i1 colon ∧ names ≠ [] ∧
-      walk (if colon.isSome then root else h) names = some node ∧
-      hdr = walk (if colon.isSome then root else h) names.dropLast ∧ hdr.isSome :=
+      walkKeys (if colon.isSome then root else h) names = some node ∧
+      hdr = walkKeys (if colon.isSome then root else h) names.dropLast ∧ hdr.isSome :=
   compoundHeader_walk root h i rest node hdr hc
 
 /-- **The new path is the header without its last mnemonic**: every accepted header is
